@@ -48,6 +48,13 @@ ASSUMPTIONS = ["retry_timeout < dead_timeout", "a failing server raises an OSErr
 
 SERVERS = [("10.0.0.1", 11211), ("10.0.0.2", 11211), ("10.0.0.3", 11211)]
 KEYS = ["k%d" % i for i in range(8)]
+# the same histories over socket-path servers (and a mix): a server is then named by a str, not a (host, port) pair
+UNIX_SERVERS = ["/var/run/mc-a.sock", "/var/run/mc-b.sock", ("10.0.0.3", 11211)]
+
+
+def pick(nserv):
+    """nserv: a number (that many TCP servers) or ('u', number) (socket-path servers first)"""
+    return SERVERS[:nserv] if isinstance(nserv, int) else UNIX_SERVERS[:nserv[1]]
 
 
 def history(rng, nserv, length):
@@ -255,13 +262,11 @@ def real_clients_probe(ctx):
     return found, n
 
 
-def search(ctx):
-    """The property's clauses on the real client: window bounds (extracted oracle), escapes, recovery."""
-    rng = ctx.rng
-    found = []
-    nh = 0
-    def judge(cfg, nserv, events):
-        servers = SERVERS[:nserv]
+def judge_case(ctx, cfg, nserv, events):
+    """-> None, or what is wrong with this history (the clauses of C13 on the real HashClient over scripted inner clients)"""
+    if True:
+        servers = pick(nserv)
+        fam, nserv = nserv, len(servers)
         contacts, escapes, nodes, dead, tend = run_history(cfg, servers, events)
         evictions, bypass = run_history.extra
         why = None
@@ -307,16 +312,27 @@ def search(ctx):
             if nodes3 != sorted(hs.server_name(s) for s in servers) or dead3:
                 why = ("with every server healthy and a call every %d s, placement did not return to the original within two dead_timeout "
                        "periods (%d s): nodes %r dead %r" % (gap, 2 * cfg[2], nodes3, dead3))
+        return why
+
+
+def search(ctx):
+    """The property's clauses on the real client: window bounds (extracted oracle), escapes, recovery."""
+    rng = ctx.rng
+    found = []
+    nh = 0
+
+    def judge(cfg, fam, events):
+        why = judge_case(ctx, cfg, fam, events)
         if why:
             found.append({"clause": why, "input": {"retry_attempts": cfg[0], "retry_timeout": cfg[1], "dead_timeout": cfg[2], "ignore_exc": cfg[3],
-                                                    "servers": nserv, "events": repr(events)}, "size": len(events), "case": repr((cfg, nserv, events))})
+                                                    "servers": repr(pick(fam)), "events": repr(events)}, "size": len(events), "case": repr((cfg, fam, events))})
 
     for trial in range(250 if ctx.quick else 4000):
         nserv = rng.choice([2, 3])
         cfg = (rng.choice([0, 1, 2, 3]), 5, 30, rng.random() < 0.5)
         events = history(rng, nserv, rng.randrange(5, 40))
         nh += 1
-        judge(cfg, nserv, events)
+        judge(cfg, ("u", nserv) if trial % 4 == 3 else nserv, events)
     # blip episodes: a server fails for one call of kind a and answers the retry of kind b, twice (thrice in the thorough tier), for every
     # pair of call kinds - a successful retry must clear the failure record whichever call made it
     kinds = ["get", "set", "set_many", "get_many", "delete"]
@@ -355,6 +371,8 @@ def replay(ctx, obj):
     if not v or not v.get("case"):
         return None
     cfg, nserv, events = eval(v["case"])
-    contacts, escapes, nodes, dead, _ = run_history(cfg, SERVERS[:nserv], events)
-    print("contacts", contacts, "escapes", escapes)
-    return any(not ctx.oracle.call(1, cfg[0], cfg[1], cfg[2], [(t, o) for t, o in log])[1] for log in contacts.values()) if ctx.oracle else None
+    if not ctx.oracle:
+        return None
+    why = judge_case(ctx, cfg, nserv, events)
+    print(why or "the history satisfies every clause")
+    return bool(why)
